@@ -15,19 +15,21 @@ LEVEL = "exploration"
 WORKERS = {"quick": 8, "thorough": 16}
 BUDGET = {"quick": 60, "thorough": 400}
 MIN_NONTRIVIAL = {"quick": 1500, "thorough": 30000}
-REQUIRED_HOOKS = ["json_to_cel", "encode", "decode", "path", "evaluate:I", "evaluate:C", "special-encodings"]
+REQUIRED_HOOKS = ["json_to_cel", "encode", "decode", "path", "path-from-package", "evaluate:I", "evaluate:C", "special-encodings"]
 RULE = (
     "Random JSON documents (depth <= 6; null, booleans, integers incl. int64 boundaries, floats incl. -0.0, subnormals and 1e308, arbitrary Unicode strings and "
     "keys, empty containers) are converted with json_to_cel and with json.loads(cls=CELJSONDecoder); every node must have the library class for its JSON kind "
     "(bool never IntType); json.dumps(cls=CELJSONEncoder) of the result must parse back to a document equal to the original under type-strict equality "
     "(bool != int != float, -0.0 by sign). For every root-to-node path the CEL expression built from .field / [\"key\"] / [i] steps (keys as bound variables and "
-    "as literals) is evaluated under both runners over the converted document and must yield the converted sub-document. Timestamps (whole seconds), durations "
+    "as literals) is evaluated under both runners over the converted document and must yield the converted sub-document; when the first step is an identifier the "
+    "same path is also evaluated with the document bound as the environment's package (.field / field from the root, as the command line does). Timestamps (whole seconds), durations "
     "(whole seconds) and bytes must encode as RFC 3339 text, '<n>s' and base64. distinct_nontrivial = distinct documents with nesting depth >= 2 or a boundary "
     "scalar, and distinct (document, path) pairs of length >= 2."
 )
 ASSUMPTIONS = [
     "documents stay inside int64 and finite doubles (JSON has no NaN/Infinity)",
     ".field steps are used only for keys that are CEL identifiers and not reserved words",
+    "the package-bound variant skips first steps that are Python keywords or Activation attribute names (the compiled runner's known C03/C04 findings) or built-in type/function names",
     "only whole-second timestamps/durations are asserted for the special encodings",
 ]
 
@@ -223,6 +225,23 @@ def first_diff(a, b):
     return (a, b)
 
 
+NOT_BARE = {"int", "uint", "double", "bool", "string", "bytes", "list", "map", "null_type", "type", "timestamp", "duration", "dyn", "has", "size", "jq", "doc"}
+
+
+_UNREP = None
+
+
+def unrepresentable(name):
+    """bare names the compiled runner is known not to handle (Python keywords, Activation attribute names: C03/C04 known findings)"""
+    global _UNREP
+    if _UNREP is None:
+        import keyword
+
+        ev = core.celpy().evaluation
+        _UNREP = set(keyword.kwlist) | set(keyword.softkwlist) | set(dir(ev.Activation)) | {"activation", "base_activation", "celpy", "operator", "CEL"}
+    return name in _UNREP or name.startswith("ex_")
+
+
 def check_path(acc, rnd, doc, cel, path, sub, text):
     src = "doc"
     binds = {"doc": cel}
@@ -249,15 +268,24 @@ def check_path(acc, rnd, doc, cel, path, sub, text):
     if len(path) >= 2:
         acc.nt(["path", text, src])
     want = MV.canon_of(to_mv(sub))
-    for r in "IC":
-        out = core.api_eval(r, src, binds)
+    variants = [(src, binds, None)]
+    if path and path[0][0] != "i" and IDENT.fullmatch(path[0][1]) and path[0][1] not in RESERVED and path[0][1] not in NOT_BARE and not unrepresentable(path[0][1]) and not re.fullmatch(r"k\d+", path[0][1]):
+        # the document bound as the package (what the command line's --json-package does): .field / field from the root
+        rest = src[len("doc"):]
+        rest = rest[1 + len(path[0][1]):] if steps[0] == "field" else rest[rest.index("]") + 1:]
+        pb = {k: v for k, v in binds.items() if k not in ("doc", "k0")}
+        pb["jq"] = cel
+        variants.append((rnd.choice([".", ""]) + path[0][1] + rest, pb, "jq"))
+        acc.hook("path-from-package")
+    for (src, binds, pkg), r in [(v, r) for v in variants for r in "IC"]:
+        out = core.api_eval(r, src, binds, package=pkg)
         acc.hook("evaluate:" + r)
         acc.evaluations += 1
         ok = out[0] == "V" and out[1] == want
         acc.cell("path", r, "len%d" % min(len(path), 4), steps[-1] if steps else "root", scalar_kind(sub), "ok" if ok else "differ")
         if not ok:
             acc.violation(
-                f"{r} path last-step={steps[-1] if steps else 'root'} target={scalar_kind(sub)} obs={diag.oclass(out).split('@')[0]}",
+                f"{r} path{'-from-package' if pkg else ''} last-step={'package-field' if pkg and len(steps) == 1 else steps[-1] if steps else 'root'} target={scalar_kind(sub)} obs={diag.oclass(out).split('@')[0]}",
                 f"{'interpreted' if r == 'I' else 'compiled'}: {src[:100]} over {text[:100]} gave {core.jkey(out)[:80]}, expected {core.jkey(want)[:80]}",
                 {"doc": text, "path": [list(p) for p in path], "runner": r},
             )
